@@ -489,6 +489,49 @@ func c10Gen(ctx *core.Ctx) {
 		}
 	}
 
+	// --- inflight: Batch calls WHILE a fan-out is blocked on a stalled subscriber — for the key whose
+	// value is being fanned out, for keys queued up behind it, for fresh keys, once or twice — then
+	// the subscriber lets go (reads everything / leaves) and time passes; no Close: at the end every
+	// last value of a key must have reached every subscriber that stayed (oracle: nothing is lost)
+	for i := 0; i < 24*scale; i++ {
+		iv := []int{2, 10}[r.Intn(2)]
+		n := []int{52, 52, 53, 55}[r.Intn(4)]
+		in, st, _ := c10StallBase(iv, []int{1, 2, 3, 4, 5}[i%5], n)
+		// burst keys are 0..n-1; the value in flight is the 52nd (key 51)
+		for j, m := 0, r.Range(1, 3); j < m; j++ {
+			k := 51
+			switch (i + j) % 4 {
+			case 1:
+				if n > 52 {
+					k = r.Range(52, n-1) // queued behind the blocked one
+				}
+			case 2:
+				k = 2000 + j // fresh
+			case 3:
+				k = r.Intn(51) // delivered long ago
+			}
+			in.Ops = append(in.Ops, c10Op{Op: "batch", K: k})
+			if r.Chance(1, 3) {
+				in.Ops = append(in.Ops, c10Op{Op: "adv", D: c10Adv(r, iv)})
+			}
+		}
+		if i%3 == 2 {
+			in.Ops = append(in.Ops, c10Op{Op: "cancel", I: st})
+		} else {
+			in.Ops = append(in.Ops, c10Op{Op: "readall", I: st})
+		}
+		in.Ops = append(in.Ops, c10Op{Op: "adv", D: iv}, c10Op{Op: "adv", D: iv})
+		c10Must(ctx, in, "inflight")
+	}
+
+	// --- race: Subscribe overlapping Close with no quiescence in between
+	for i := 0; i < 4*scale; i++ {
+		in := c10RaceInput{Race: true, Attempts: 400, Seed: r.U64(), Ended: i%4 == 2, Second: i%4 == 3}
+		if err := c10RunRace(ctx, in, "race"); err != nil {
+			panic(err)
+		}
+	}
+
 	// --- closes: Close called several times, overlapping or one after the other -----------------
 	// (a) while the first is held up by a delivery blocked on a live stalled subscriber: 1..3
 	//     further calls, then one way of releasing (or none), then possibly yet another call
